@@ -309,38 +309,48 @@ int main(int argc, char **argv)
     vf_assume("harnesses of 2 threads x 2 operations (all unordered pairs of 10 operation kinds, each thread in opposite order) and 3 threads x 1 operation");
     if (n_interesting == 0) vf_cap("symbol table not available: no 'interesting' function ranges, only bound_all applies");
 
-    for (int a = 0; a < N_BODY_OPS; a++) for (int b = a; b < N_BODY_OPS; b++) {
-        if (!th && !((a == b && a != OP_TRAP) || (a == OP_FAST_OVER && (b == OP_GENERAL_ATOP || b == OP_SAME_TWICE || b == OP_SHARED_SRC)) ||
-                     (a == OP_GENERAL_ATOP && (b == OP_GRADIENT || b == OP_FILL)) || (a == OP_REGION && b == OP_TRAP) || (a == OP_GRADIENT && b == OP_SHARED_GRADIENT))) continue;
-        add_pair(a, b);
-    }
-    if (th) { add_triple(OP_FAST_OVER, OP_GENERAL_ATOP, OP_SAME_TWICE); add_triple(OP_GENERAL_ATOP, OP_GENERAL_ATOP, OP_GRADIENT); add_triple(OP_SHARED_SRC, OP_SHARED_SRC, OP_FILL); add_triple(OP_REGION, OP_TRAP, OP_FAST_OVER); }
-    else add_triple(OP_FAST_OVER, OP_GENERAL_ATOP, OP_SHARED_SRC);
-
-    /* baseline (no deviation) traces decide the layout of the space */
-    uint64_t total = 0;
-    for (int hid = 0; hid < NH; hid++) {
-        compute_solo(&H[hid]);
-        uint64_t got[MAXT];
-        execute(&H[hid], NULL, 0, got);
-        base_np[hid] = npoints < MAXP / 8 ? npoints : MAXP / 8;
-        memcpy(base_trace[hid], trace, sizeof(point_t) * (size_t)base_np[hid]);
-        int cnt = 0;
-        for (int i = 0; i < base_np[hid]; i++) {
-            if (base_trace[hid][i].nen < 2) continue;
-            int cost = base_trace[hid][i].running_enabled ? 1 : 0;
-            if (cost <= B.bound_all || (base_trace[hid][i].interesting && cost <= B.bound_interesting)) cnt += base_trace[hid][i].nen - 1;
+    /* Iterating the bound: the space "schedules" takes the tier's harness list at the lower bound (1 everywhere / 2 inside the dispatch functions) and is
+     * always run to completion; the thorough tier then repeats the core harness list (the quick tier's) at the next bound (2 / 3). */
+    static char b[600]; size_t bl = 0;
+    for (int pass = 0; pass < (th ? 2 : 1); pass++) {
+        int wide = th && pass == 0;          /* all unordered pairs + 4 triples */
+        NH = 0;
+        for (int a = 0; a < N_BODY_OPS; a++) for (int bb = a; bb < N_BODY_OPS; bb++) {
+            if (!wide && !((a == bb && a != OP_TRAP) || (a == OP_FAST_OVER && (bb == OP_GENERAL_ATOP || bb == OP_SAME_TWICE || bb == OP_SHARED_SRC)) ||
+                           (a == OP_GENERAL_ATOP && (bb == OP_GRADIENT || bb == OP_FILL)) || (a == OP_REGION && bb == OP_TRAP) || (a == OP_GRADIENT && bb == OP_SHARED_GRADIENT))) continue;
+            add_pair(a, bb);
         }
-        L.base[hid] = (int)total; total += 1 + (uint64_t)cnt;
-        if (getenv("VF_TIMING")) { int ni = 0; for (int i = 0; i < base_np[hid]; i++) ni += base_trace[hid][i].interesting;
-            fprintf(stderr, "harness %d: %d threads, %d points in the deviation-free schedule (%d interesting), %d first deviations\n", hid, H[hid].nthreads, npoints, ni, cnt); }
+        if (wide) { add_triple(OP_FAST_OVER, OP_GENERAL_ATOP, OP_SAME_TWICE); add_triple(OP_GENERAL_ATOP, OP_GENERAL_ATOP, OP_GRADIENT); add_triple(OP_SHARED_SRC, OP_SHARED_SRC, OP_FILL); add_triple(OP_REGION, OP_TRAP, OP_FAST_OVER);
+                    add_triple(OP_SHARED_CLIPPED_SRC, OP_SHARED_CLIPPED_SRC, OP_SHARED_GRADIENT); }
+        else add_triple(OP_FAST_OVER, OP_GENERAL_ATOP, OP_SHARED_SRC);
+        B.bound_all = pass ? 2 : 1; B.bound_interesting = pass ? 3 : 2;
+        if (getenv("C16_BOUND_ALL")) B.bound_all = atoi(getenv("C16_BOUND_ALL"));
+        if (getenv("C16_BOUND_INT")) B.bound_interesting = atoi(getenv("C16_BOUND_INT"));
+
+        /* baseline (no deviation) traces decide the layout of the space */
+        uint64_t total = 0;
+        for (int hid = 0; hid < NH; hid++) {
+            compute_solo(&H[hid]);
+            uint64_t got[MAXT];
+            execute(&H[hid], NULL, 0, got);
+            base_np[hid] = npoints < MAXP / 8 ? npoints : MAXP / 8;
+            memcpy(base_trace[hid], trace, sizeof(point_t) * (size_t)base_np[hid]);
+            int cnt = 0;
+            for (int i = 0; i < base_np[hid]; i++) {
+                if (base_trace[hid][i].nen < 2) continue;
+                int cost = base_trace[hid][i].running_enabled ? 1 : 0;
+                if (cost <= B.bound_all || (base_trace[hid][i].interesting && cost <= B.bound_interesting)) cnt += base_trace[hid][i].nen - 1;
+            }
+            L.base[hid] = (int)total; total += 1 + (uint64_t)cnt;
+            if (getenv("VF_TIMING")) { int ni = 0; for (int i = 0; i < base_np[hid]; i++) ni += base_trace[hid][i].interesting;
+                fprintf(stderr, "harness %d: %d threads, %d points in the deviation-free schedule (%d interesting), %d first deviations\n", hid, H[hid].nthreads, npoints, ni, cnt); }
+        }
+        L.base[NH] = (int)total;
+        vf_hang_s = 120;
+        vf_space_run(pass ? "schedules-next-bound-core-harnesses" : "schedules", total, sched_case, NULL);
+        bl += snprintf(b + bl, sizeof b - bl, "%s%d harnesses (2 threads x 2 ops, 3 threads x 1 op): preemption bound %d at every basic block, %d inside dispatch/validation functions (%d function ranges), %llu first deviations",
+                       pass ? "; then " : "", NH, B.bound_all, B.bound_interesting, n_interesting, (unsigned long long)total);
     }
-    L.base[NH] = (int)total;
-    vf_hang_s = 120;
-    vf_space_run("schedules", total, sched_case, NULL);
-    static char b[300];
-    snprintf(b, sizeof b, "%d harnesses (2 threads x 2 ops, 3 threads x 1 op); preemption bound %d at every basic block, %d inside dispatch/validation functions (%d function ranges); %llu first deviations",
-             NH, B.bound_all, B.bound_interesting, n_interesting, (unsigned long long)total);
     vf_bounds = b;
     return vf_finish();
 }
